@@ -969,3 +969,67 @@ Proof.
   inversion Hc as [|? ? (Hcne & _) _]; subst. cbn in Hnil. apply app_eq_nil in Hnil as [-> _]. destruct c; [congruence|discriminate].
 Qed.
 End AllBins.
+
+
+(** * L. cross maps designate valid parents; the OHV problem as a whole *)
+Lemma xmap_from_valid (uniq : bool) : forall k st n,
+  Forall (fun xc => length xc = k /\ Forall (fun d => st <= d < n) xc) (xmap_from uniq k st n).
+Proof.
+  induction k as [|k IH]; intros st n; cbn [xmap_from]; [repeat constructor|].
+  apply Forall_forall. intros xc Hx. apply in_flat_map in Hx as (i & Hi & Hx). apply in_seq in Hi.
+  apply in_map_iff in Hx as (xc' & <- & Hx').
+  specialize (IH (if uniq then S i else i) n). rewrite Forall_forall in IH. destruct (IH xc' Hx') as [L F].
+  split; [cbn; now rewrite L|]. constructor; [lia|]. eapply Forall_impl; [|exact F]. cbn. intros d Hd. destruct uniq; lia.
+Qed.
+
+Lemma calc_xmap_valid ntaxa nparent uniq :
+  Forall (fun xc => length xc = nparent /\ Forall (fun d => d < ntaxa) xc) (calc_xmap ntaxa nparent uniq).
+Proof.
+  unfold calc_xmap. eapply Forall_impl; [|apply xmap_from_valid]. cbn. intros xc [L F]. split; [exact L|].
+  eapply Forall_impl; [|exact F]. cbn. intros; lia.
+Qed.
+
+Lemma calc_ohvmat_nth ploidy nb nt hm xmap s :
+  nth_error (calc_ohvmat ploidy nb nt hm xmap) s = option_map (fun xc => ohv_row ploidy nb nt (cands hm xc)) (nth_error xmap s).
+Proof. unfold calc_ohvmat. apply nth_error_map. Qed.
+
+Lemma copies_rows (geno : list (list (list Z))) (parents : list nat) (n p : nat) :
+  Forall (fun phm => length phm = n /\ Forall (fun g => length g = p) phm) geno -> Forall (fun d => d < n) parents ->
+  Forall (fun phm => Forall (fun d => d < length phm) parents) geno /\ Forall (fun g => length g = p) (copies geno parents).
+Proof.
+  intros Hg Hp. split.
+  - eapply Forall_impl; [|exact Hg]. cbn. intros phm [L _]. now rewrite L.
+  - unfold copies. apply Forall_forall. intros g Hin. apply in_flat_map in Hin as (phm & Hphm & Hin).
+    apply in_map_iff in Hin as (d & <- & Hd). rewrite Forall_forall in Hg. destruct (Hg phm Hphm) as [L F].
+    rewrite Forall_forall in F. apply F. apply nth_In. rewrite Forall_forall in Hp. rewrite L. now apply Hp.
+Qed.
+
+(** the OHV problem built by from_pgmat_gpmod, under the guard "as many runs as requested blocks": every entry of
+    ohvmat is defined and bounds every block-boundary recombinant of the cross's parents *)
+Lemma ohv_problem_partial {T : Type} (O : ops T) (chrs : list (list T)) e1 e2 nhap (geno : list (list (list Z))) clen u nt hm
+    (ntaxa nparent : nat) (uniq : bool) (bounds : list (nat * nat)) :
+  chrs <> [] -> Forall (fun c => c <> []) chrs ->
+  calc_haplomat O e1 e2 nhap geno (concat chrs) (starts_from 0 (map (@length T) chrs)) (stops_from 0 (map (@length T) chrs)) clen u nt = Ok hm ->
+  calc_bounds O nhap (concat chrs) (starts_from 0 (map (@length T) chrs)) (stops_from 0 (map (@length T) chrs)) = Some bounds ->
+  length bounds = nhap ->
+  geno <> [] -> Forall (fun phm => length phm = ntaxa /\ Forall (fun g => length g = length (concat chrs)) phm) geno ->
+  length u = length (concat chrs) -> 1 <= nparent ->
+  forall s xc t, nth_error (calc_xmap ntaxa nparent uniq) s = Some xc -> t < nt ->
+  exists V, nth_error (calc_ohvmat (Z.of_nat (length geno)) nhap nt hm (calc_xmap ntaxa nparent uniq)) s
+              = Some (ohv_row (Z.of_nat (length geno)) nhap nt (cands hm xc))
+    /\ nth t (ohv_row (Z.of_nat (length geno)) nhap nt (cands hm xc)) None = Some V
+    /\ forall src : nat -> list Z, (forall b, b < nhap -> In (src b) (copies geno xc)) ->
+         (inject_Z (Z.of_nat (length geno)) * dotZQ (recomb src 0 bounds) (col 0%Q t u) <= V)%Q.
+Proof.
+  intros Hne Hc Hcalc Hb Lb Hg Hshape Lu Hnp s xc t Hxc Ht.
+  destruct (haplomat_partial O chrs e1 e2 nhap geno clen u nt hm Hne Hc Hcalc) as (bounds' & Hb' & -> & Ch & _ & _ & _).
+  rewrite Hb in Hb'. injection Hb' as <-.
+  pose proof (calc_xmap_valid ntaxa nparent uniq) as Hv. rewrite Forall_forall in Hv.
+  destruct (Hv xc (nth_error_In _ _ Hxc)) as [Lxc Fxc].
+  destruct (copies_rows geno xc ntaxa (length (concat chrs)) Hshape Fxc) as [Hpar Hrows].
+  assert (Hcne : copies geno xc <> []).
+  { destruct geno as [|phm geno']; [congruence|]. destruct xc as [|d xc']; [cbn in Lxc; lia|]. unfold copies. cbn. discriminate. }
+  destruct (ohv_bounds_recombinants (Z.of_nat (length geno)) nhap nt geno u bounds xc t (length (concat chrs))) as (V & EV & _ & _ & Hrec);
+    try assumption; [lia|].
+  exists V. split; [rewrite calc_ohvmat_nth, Hxc; reflexivity|]. split; [exact EV | exact Hrec].
+Qed.
